@@ -514,9 +514,13 @@ def check_presentation_case(case):
 
 
 def _tree_constants(t):
+    """the Boolean constants of the formula: written out, or brought in by the documented abbreviations F g = true U g
+    and G g = not (true U not g), which every checker expands before it starts"""
     if t[0] in ('true', 'false'):
         return {t[0]}
     out = set()
+    if t[0] in ('F', 'G'):
+        out.add('true')
     for c in t[1:]:
         if isinstance(c, tuple) and t[0] != 'ap':
             out |= _tree_constants(c)
